@@ -124,7 +124,7 @@ def _body_ok(h: _Helper) -> Optional[str]:
     if any(d not in ("staticmethod", "classmethod") for d in h.decos):
         return "decorated"
     a = fn.args
-    if a.vararg or a.kwarg:
+    if a.vararg:
         return "varargs"
     for n in ast.walk(fn):
         if n is fn:
@@ -229,6 +229,8 @@ def _find_list(root: ast.AST, stmt: ast.stmt) -> Optional[list]:
 def _bound_names(fn: ast.FunctionDef) -> set[str]:
     a = fn.args
     names = {x.arg for x in a.posonlyargs + a.args + a.kwonlyargs}
+    if a.kwarg:
+        names.add(a.kwarg.arg)
     imported: set[str] = set()
     for n in ast.walk(fn):
         if isinstance(n, ast.Name) and isinstance(n.ctx, (ast.Store, ast.Del)):
@@ -268,6 +270,49 @@ class _Counter:
         return self.n
 
 
+def _always_returns(stmts: list[ast.stmt]) -> bool:
+    if not stmts:
+        return False
+    last = stmts[-1]
+    if isinstance(last, (ast.Return, ast.Raise)):
+        return True
+    if isinstance(last, ast.If):
+        return bool(last.orelse) and _always_returns(last.body) and _always_returns(last.orelse)
+    return False
+
+
+def _structure_returns(stmts: list[ast.stmt], ret_assign, res: str) -> Optional[list[ast.stmt]]:
+    """Guard-clause style bodies (`if c: return a` ... `return b`) as nested if/else with the result assigned in each branch - no jump needed.
+    None when a return sits inside a loop / with / try (then the structured jump of N1 is used)."""
+    out: list[ast.stmt] = []
+    for i, st in enumerate(stmts):
+        if isinstance(st, ast.Return):
+            out.append(ret_assign(st))
+            return out
+        has_ret = any(isinstance(n, ast.Return) for n in ast.walk(st))
+        if not has_ret:
+            out.append(st)
+            continue
+        if not isinstance(st, ast.If):
+            return None
+        rest = stmts[i + 1:]
+        if _always_returns(st.body):
+            b = _structure_returns(st.body, ret_assign, res)
+            e = _structure_returns(st.orelse + rest, ret_assign, res)
+        elif st.orelse and _always_returns(st.orelse):
+            b = _structure_returns(st.body + rest, ret_assign, res)
+            e = _structure_returns(st.orelse, ret_assign, res)
+        else:
+            return None
+        if b is None or e is None:
+            return None
+        out.append(ast.copy_location(ast.If(test=st.test, body=b or [ast.Pass()], orelse=e), st))
+        return out
+    # control falls off the end: the helper returns None
+    out.append(ast.Assign(targets=[ast.Name(id=res, ctx=ast.Store())], value=ast.Constant(value=None)))
+    return out
+
+
 def _inline(h: _Helper, call: ast.Call, stmt: ast.stmt, lst: list, k: int, recv: Optional[ast.expr]) -> bool:
     """Replace `call` (inside `stmt`, member of statement list `lst`) by the helper's body.  Returns False when the binding fails."""
     fn = h.node
@@ -296,8 +341,20 @@ def _inline(h: _Helper, call: ast.Call, stmt: ast.stmt, lst: list, k: int, recv:
         else:
             pre.append(ast.Assign(targets=[ast.Name(id=rename[p0], ctx=ast.Store())], value=copy.deepcopy(recv)))
     # arguments
-    if any(isinstance(x, ast.Starred) for x in call.args) or any(kw.arg is None for kw in call.keywords):
+    if any(isinstance(x, ast.Starred) for x in call.args):
         return False
+    passthrough = [kw for kw in call.keywords if kw.arg is None]
+    if passthrough:
+        # `**kwargs` handed on to a helper that takes `**kwargs`: the helper's dictionary is the caller's (never re-bound by the helper)
+        if len(passthrough) != 1 or a.kwarg is None or not isinstance(passthrough[0].value, ast.Name):
+            return False
+        if any(isinstance(n, ast.Name) and n.id == a.kwarg.arg and isinstance(n.ctx, (ast.Store, ast.Del)) for st_ in fn.body for n in ast.walk(st_)):
+            return False
+        rename[a.kwarg.arg] = passthrough[0].value.id
+    elif a.kwarg is not None:
+        # called without **: the helper sees an empty dictionary
+        pre.append(ast.Assign(targets=[ast.Name(id=rename.get(a.kwarg.arg, a.kwarg.arg + sfx), ctx=ast.Store())], value=ast.Dict(keys=[], values=[])))
+        rename.setdefault(a.kwarg.arg, a.kwarg.arg + sfx)
     if len(call.args) > len(params):
         return False
     bound: dict[str, ast.expr] = {}
@@ -305,6 +362,8 @@ def _inline(h: _Helper, call: ast.Call, stmt: ast.stmt, lst: list, k: int, recv:
         bound[p.arg] = v
     names = {p.arg for p in params} | {p.arg for p in kwonly}
     for kw in call.keywords:
+        if kw.arg is None:
+            continue
         if kw.arg not in names or kw.arg in bound:
             return False
         bound[kw.arg] = kw.value
@@ -367,13 +426,18 @@ def _inline(h: _Helper, call: ast.Call, stmt: ast.stmt, lst: list, k: int, recv:
             asg._ann = copy.deepcopy(fn.returns)  # type: ignore[attr-defined]  # the declared return type stays known to type inference
         return asg
 
-    if tail_only:
+    structured = None
+    if not tail_only:
+        structured = _structure_returns(body, ret_assign, res)
+    if structured is not None:
+        new = pre + structured
+    elif tail_only:
         if returns:
             body[-1] = ret_assign(returns[0])
         elif not (isinstance(stmt, ast.Expr) and stmt.value is call):
             body.append(ast.Assign(targets=[ast.Name(id=res, ctx=ast.Store())], value=ast.Constant(value=None)))
         new = pre + body
-    else:
+    elif structured is None:
         mark = f"{MARK}{k}"
 
         class Ret(ast.NodeTransformer):
